@@ -10,6 +10,7 @@ pub mod stubs;
 
 pub mod c01;
 pub mod c06;
+pub mod c06p;
 pub mod c07;
 pub mod c08;
 pub mod ast;
@@ -28,6 +29,7 @@ pub fn tables() -> Vec<(&'static str, vsrc::NativeFn)> {
     let mut t = Vec::new();
     t.extend(c01::table());
     t.extend(c06::table());
+    t.extend(c06p::table());
     t.extend(c07::table());
     t.extend(c08::table());
     t.extend(c09::table());
